@@ -30,7 +30,7 @@ PROPS["C16"] = dict(
         "stated condition (store/to_zarr only under `compute`, indexing only for cubed-array keys). "
         "An effect closure covers every path through every entry point at once; tests call a few dozen "
         "functions under a raise-if-computes executor."
-            " A second rule (LAZY-IMPLICIT-1) covers implicit conversions: no builder truth-tests or converts a possibly-array parameter (`if a > b:` calls Array.__bool__, which computes)."
+            " A second rule (LAZY-IMPLICIT-1) covers implicit conversions: no builder truth-tests or converts a possibly-array parameter (`if a > b:` calls Array.__bool__, which computes). operator.index() of a parameter needs an isinstance check first."
     ),
     note=(
         "Call graph over-approximated by method name for unknown receivers; subscript expressions on "
@@ -65,7 +65,7 @@ PROPS["C13"] = dict(
         "compute start/end bracket the executor call, that num_tasks and the task iterable of every "
         "PrimitiveOperation construction have one origin, that the plan total sums every primitive op, and "
         "(with MAP-ONCE-1) that the parallel map emits at most one result per input. Dominance facts cover "
-        "every DAG, executor option and completion order; tests observe a handful of runs."
+        "every DAG, executor option and completion order; tests observe a handful of runs. The three dispatch helpers call the matching Callback method on every callback given (EVENTS-HELPERS-1); new futures registered in the input map are awaited and the batch refill submits the next batch exactly when there is one (MAP-SUBMIT-1); an explicit task iterable is re-iterable (COUNT-1)."
     ),
     note="Third-party executors (lithops, dask, ray, modal, spark, coiled) are out of scope of this property; ThreadsExecutor/ProcessesExecutor reach async_map_dag, which is analysed.",
     design="DESIGN.md §4 C13",
@@ -80,7 +80,7 @@ PROPS["C07"] = dict(
         "the whole dag in topological order filtered only by skip_node, that the parallel map ends only when "
         "no future is pending, that create-arrays is wired as a predecessor of every executable node, and "
         "that every array read by an operation is a graph predecessor of it. Together: on every schedule an "
-        "operation starts only after its producers' streams were drained."
+        "operation starts only after its producers' streams were drained. An array node gets an edge from the operation node created with it; an operation is skipped on resume only after all of its outputs were found complete (RESUME-ALL-1)."
     ),
     note="asyncio / concurrent.futures scheduling and storage consistency are assumed as documented; FUSE-REWIRE-1 (C02) covers edge preservation through optimisation.",
     design="DESIGN.md §4 C07",
@@ -95,7 +95,7 @@ PROPS["C09"] = dict(
         "execute() writes `computed` marks only under `resume`, on a copy of the shared frozen graph, for "
         "every node, before the executor call; skip_node honours exactly that key with a falsy default; "
         "arrays are re-created with mode \"a\" and an open-on-exists fallback; every store backend writes empty "
-        "chunks. These are facts about every crash point at once; a test can inject a handful."
+        "chunks. These are facts about every crash point at once; a test can inject a handful. The resume decision is a read-only query (RESUME-PURE-1): nothing is remembered on plan nodes or target arrays."
     ),
     note="Does not decide value equality of a resumed run (needs execution); zarr's nchunks_initialized and write atomicity are trusted.",
     design="DESIGN.md §4 C09",
@@ -125,7 +125,7 @@ PROPS["C20"] = dict(
         "finding F9); any further generator or merge point that breaks uniqueness is reported separately. "
         "Also decides that counters are monotone single-writer and that intermediate data lives under a "
         "per-process uuid directory."
-            " CONTEXT_ID may not be inherited from the environment, intermediate data always lives under it, and spec compatibility is by value (a deserialised equal spec combines with local arrays)."
+            " CONTEXT_ID may not be inherited from the environment, intermediate data always lives under it, and spec compatibility is by value (a deserialised equal spec combines with local arrays). Spec.__eq__ compares settings field by field (never whole instance dictionaries, which cached properties pollute), and the resume decision stores nothing on objects that travel in a pickle (RESUME-PURE-1)."
     ),
     note="Does not decide pickling fidelity of closures or lru_cache behaviour after unpickling (needs execution).",
     design="DESIGN.md §4 C20",
@@ -205,7 +205,7 @@ PROPS["C03"] = dict(
         "every predecessor fully and frees at most projected - result; variable-length block groups are handed "
         "over as iterators and consumed one block at a time through fusion; declared extra memory has unit "
         "bytes (thorough tier)."
-            " Also: what a streaming reduction carries between blocks is reduced again in the same iteration (bounded accumulator), and array_memory(<dtype>, <own output chunks>) uses the operation's output dtype (MEM-DTYPE-1)."
+            " Also: what a streaming reduction carries between blocks is reduced again in the same iteration (bounded accumulator), and array_memory(<dtype>, <own output chunks>) uses the operation's output dtype (MEM-DTYPE-1). No container outlives an iteration of the block loop with per-block data in it, and extra memory declared from an operand's chunk size is computed from the operand as passed, not from a value taken before the operand variable was rebound (MEM-STALE-1)."
     ),
     note=(
         "Does NOT decide that a task's real allocations stay under the bound (NumPy temporaries, codec "
@@ -225,7 +225,7 @@ PROPS["C05"] = dict(
         "outputs with different block counts are refused); fused operations keep the successor's grid; and a "
         "caller-supplied storage array becomes a target only behind a shards/chunks compatibility guard — the "
         "missing chunks guard in _store_array is reproduced known finding F6."
-            " Rechunk copies: the irregular storage grid is split_chunks(shape, copy chunks, target chunks) and the regular planner re-aligns copy chunks per stage against the chunks they are written to (RECHUNK-GRID-1); the shard guard rechunks to the compared attribute."
+            " Rechunk copies: the irregular storage grid is split_chunks(shape, copy chunks, target chunks) and the regular planner re-aligns copy chunks per stage against the chunks they are written to (RECHUNK-GRID-1); the shard guard rechunks to the compared attribute. Array proxies open their current array on every call and keep no handle (PROXY-OPEN-1): the store operation re-points proxies in place."
     ),
     note="Does not decide that split_chunks/_fix_copy_chunks produce aligned grids for every rechunk geometry (arithmetic, see C14) nor zarr's own write atomicity.",
     design="DESIGN.md §4 C05",
@@ -253,7 +253,7 @@ PROPS["C11"] = dict(
         "type, region-without-target, alignment and shape rejections are ValueErrors that precede operation "
         "construction; execution happens only under `compute` over all built arrays; targets whose chunking "
         "differs from the source's need a compatibility guard (known finding F6)."
-            " Also: the writing operation is marked non-fusable on the operation object itself (STORE-NOFUSE-1) and region block offsets divide each axis' start by that axis' chunk size."
+            " Also: the writing operation is marked non-fusable on the operation object itself (STORE-NOFUSE-1) and region block offsets divide each axis' start by that axis' chunk size. Fused operations keep the successor's no-fuse mark (FUSE-PROV-1; F12, fixed), proxies keep no open handle (PROXY-OPEN-1), and the task iterable of a region store can be walked more than once."
     ),
     note="Does not decide the copied values nor sentinel preservation outside the region (needs execution).",
     design="DESIGN.md §4 C11",
